@@ -418,6 +418,9 @@ func (s *sess) requestHandlers() []client.RequestHandler {
 			s.reqHook(request, conn)
 			return nil
 		}
+		if q, ok := request.Body.Message.(*message.Query); ok && strings.HasPrefix(q.Query, "noreply") {
+			return nil // a request that stays pending
+		}
 		if q, ok := request.Body.Message.(*message.Query); ok && strings.HasPrefix(q.Query, "paged") {
 			n := 3
 			for p := 1; p < n; p++ {
@@ -441,8 +444,13 @@ func pageMsg(page int, last bool) message.Message {
 // steps
 
 func (s *sess) clientSend(name string, msg message.Message, paged bool) error {
+	return s.clientSendID(name, msg, paged, client.ManagedStreamId)
+}
+
+// clientSendID sends on a caller-chosen stream id (ManagedStreamId = let the connection choose).
+func (s *sess) clientSendID(name string, msg message.Message, paged bool, id int16) error {
 	if s.cc != nil {
-		f := frame.NewFrame(s.ver, client.ManagedStreamId, msg)
+		f := frame.NewFrame(s.ver, id, msg)
 		var req client.InFlightRequest
 		var err error
 		w := watch("client.Send", func() error { req, err = s.cc.Send(f); return err })
@@ -648,6 +656,27 @@ func (s *sess) runSteps() error {
 			} else if err := s.clientRecv(nil); err != nil {
 				return err
 			}
+		}
+	case "dup-id": // a request pending on a caller-chosen stream id, K-1 managed ones, and a second Send with the SAME id (refused)
+		const dupID = 1000
+		if err := s.clientSendID("first-on-id-1000", s.query(0), false, dupID); err != nil {
+			return err
+		}
+		if _, err := s.serverRecv(); err != nil {
+			return err
+		}
+		for i := 1; i < sp.K; i++ {
+			if err := s.clientSend(fmt.Sprintf("q%d", i), s.query(i), false); err != nil {
+				return err
+			}
+			if _, err := s.serverRecv(); err != nil {
+				return err
+			}
+		}
+		if err := s.clientSendID("second-on-id-1000", s.query(99), false, dupID); err != nil {
+			s.res.count("duplicate_id_send_refused", 1)
+		} else {
+			s.res.count("duplicate_id_send_accepted", 1) // tracked like any other request
 		}
 	case "half-frame": // K requests in flight; the peer has written only the first bytes of a frame
 		for i := 0; i < sp.K; i++ {
